@@ -41,8 +41,13 @@ worktree carrying the patch (`VERIF_REPO` mode: own copy of the Coq tree, no evi
 untouched).
 
 Outcome (quick tier, as committed): %d reported with a concrete replay, %d reported only as a broken tie or
-correspondence (`no-failing-input-found`), %d not reported, %d filed but not run (a fifth, partial round of ten changes
-made at the very end of the session, kept as a held-out set: `tools/run_seeded.sh <id>` runs them). %d of the %d were reported as they came; %d were first
+correspondence (`no-failing-input-found`), %d not reported, %d filed but not run. The partial fifth round (ten changes made at
+the very end of the session) was run once and left as it came - no strengthening - as a held-out measurement: seven
+of the ten are reported with a concrete replay, three are not (C15-5: WRITE whose opaque is longer than its count
+allocates the declared length; C17-5: a connection whose last call was rate-limited is never reaped; C19-5: IPv6
+clients differing in the last group share a per-IP bucket). Those three mark the next generator extensions (WRITE
+argument lengths that disagree, rate limiting combined with idle reaping, IPv6 client addresses in the limiter
+streams). %d of the %d were reported as they came; %d were first
 missed and %d first reported without an input, and each of those led to a stronger generator, oracle or stream
 (last column) - after which the unchanged tree was re-checked to stay quiet. The recurring blind spots were:
 (i) effects that only show on a *second look* inside the cache TTL (LOOKUP sandwiches and directory sweeps around
